@@ -58,6 +58,8 @@ def strata(tier):
                     continue
             for N in ns[D]:
                 out.append(dict(id="%s-D%d-N%d" % (v, D, N), v=v, D=D, N=N))
+            if tier != "quick" or D == 1 + (VARIANTS.index(v) % 3) or (D == 1 and v in ("adv_v", "diff_m", "disp_s1", "hyp1")):
+                out.append(dict(id="%s-D%d-anyN" % (v, D), v=v, D=D, N="any"))  # grid size drawn from a wide range
     return out
 
 
